@@ -388,12 +388,14 @@ def _run_program(prog, calls, hooks=None, timeout_s=None):
       return
     crashed.append('%s: %s' % (args.exc_type.__name__, args.exc_value))
   threading.excepthook = hook
-  CONF.load(allow_unset_measurements=bool(prog['set']['unset']), _override=True)
+  hang = any(v == 'hang' for v in prog['plugspec']['tdmode'].values())
+  CONF.load(allow_unset_measurements=bool(prog['set']['unset']),
+            plug_teardown_timeout_s=3 if hang else 0, _override=True)
   try:
     ret = test.execute(test_start=start)
   finally:
     threading.excepthook = old_hook
-    CONF.load(allow_unset_measurements=False, _override=True)
+    CONF.load(allow_unset_measurements=False, plug_teardown_timeout_s=0, _override=True)
   for t in ctx.aborters:
     t.join(5)
   obs = project_record(out[0]) if out else dict(oc='NO-RECORD')
